@@ -150,12 +150,12 @@ theorem mesh_eqs_hold (kind : Kind) (s : K) (cs : List (Cpt K)) (x : Ix → K) (
     (im : Nat → K) (hdef : MeshDefined kind s cs) (hlaws : Laws kind s cs x) (loop : List GNode)
     (hcyc : isSimpleCycle (buildGraph cs) loop = true)
     (hcons : MeshConsistent true kind s cs loops x im loop)
-    (f : MeshForm K) (hf : meshEq true kind s (buildGraph cs) loops loop = some f) : f.eval im = 0 := by
-  rw [meshEq_eval true kind s (buildGraph cs) loops x im (loopPairs loop) ?_ f hf]
+    (f : MeshForm K) (hf : meshEq true true kind s (buildGraph cs) loops loop = some f) : f.eval im = 0 := by
+  rw [meshEq_eval true true kind s (buildGraph cs) loops x im (loopPairs loop) ?_ f hf]
   · exact kvl_telescopes x loop
   · intro ab hab t ht
-    exact meshTerm_eval true kind s cs (buildGraph cs) (buildGraph_ok cs) loops x im hlaws hdef
-      (fun h => absurd h (by simp)) ab (adjacent_of_cycle _ loop hcyc ab hab) (hcons ab hab) t ht
+    exact meshTerm_eval true true kind s cs (buildGraph cs) (buildGraph_ok cs) loops x im hlaws hdef
+      (fun h => absurd h (by simp)) (fun h => absurd h (by simp)) ab (adjacent_of_cycle _ loop hcyc ab hab) (hcons ab hab) t ht
 
 /-- non-vacuity: V1 1 0 6; R1 1 2 3; R2 2 0 5 with its solution, the loop 0-1-2 and the mesh current 3/4 -/
 example : isSimpleCycle (buildGraph exCkt) exLoop = true := exLoop_cycle
@@ -170,7 +170,7 @@ example : MeshConsistent true .dc 0 exCkt [exLoop] exSol (fun _ => 3/4) exLoop :
     norm_num [accCoeffs, lsum, through, exSol, vd, volt]
 
 /- Full statement for the code as it is -- FALSE (findings C15-c, C15-d):
-   theorem mesh_eqs_hold_asis … (hcons : MeshConsistent false …) (hf : meshEq false … = some f) : f.eval im = 0
+   theorem mesh_eqs_hold_asis … (hcons : MeshConsistent false …) (hf : meshEq false false … = some f) : f.eval im = 0
    fails for `V1 1 0 step 6; R1 1 2 3; R2 2 0 5; R3 2 0 7` (parallel R2, R3) and for any loop through an
    inductor or capacitor with an initial condition. -/
 
@@ -183,12 +183,12 @@ theorem mesh_eqs_hold_partial (kind : Kind) (s : K) (cs : List (Cpt K)) (x : Ix 
     (hnopar : ∀ e ∈ buildGraph cs, ∃ n, e.b = GNode.real n)
     (hnoic : ∀ c ∈ cs, NoIC kind s c)
     (hcons : MeshConsistent false kind s cs loops x im loop)
-    (f : MeshForm K) (hf : meshEq false kind s (buildGraph cs) loops loop = some f) : f.eval im = 0 := by
-  rw [meshEq_eval false kind s (buildGraph cs) loops x im (loopPairs loop) ?_ f hf]
+    (f : MeshForm K) (hf : meshEq false false kind s (buildGraph cs) loops loop = some f) : f.eval im = 0 := by
+  rw [meshEq_eval false false kind s (buildGraph cs) loops x im (loopPairs loop) ?_ f hf]
   · exact kvl_telescopes x loop
   · intro ab hab t ht
-    exact meshTerm_eval false kind s cs (buildGraph cs) (buildGraph_ok cs) loops x im hlaws hdef
-      (fun _ => ⟨hnopar, hnoic⟩) ab (adjacent_of_cycle _ loop hcyc ab hab) (hcons ab hab) t ht
+    exact meshTerm_eval false false kind s cs (buildGraph cs) (buildGraph_ok cs) loops x im hlaws hdef
+      (fun _ => hnopar) (fun _ => hnoic) ab (adjacent_of_cycle _ loop hcyc ab hab) (hcons ab hab) t ht
 
 /-! ## canonical state-space realisations of a transfer function (continuous and discrete time) -/
 
